@@ -147,7 +147,9 @@ func c27Report(r *ev.Rec, sig, format string, args ...any) error {
 		if _, ok := c27Examples[sig]; !ok {
 			c27Examples[sig] = msg
 		}
+		c27Survey[sig]++
 		c27SurveyMu.Unlock()
+		return nil
 	}
 	return r.KnownErr(c27Class(sig), "%s", msg)
 }
@@ -272,13 +274,7 @@ func c27DiffSig(got, want string) string {
 
 // c27Class maps a disagreement signature to the recorded finding it belongs to ("" = not recorded).
 func c27Class(sig string) string {
-	if os.Getenv("C27_SURVEY") != "" {
-		c27SurveyMu.Lock()
-		c27LastSig = sig
-		c27Survey[sig]++
-		c27SurveyMu.Unlock()
-		return "survey"
-	}
+
 	for _, k := range c27Known {
 		if strings.Contains(sig, k.Match) {
 			return k.Sig
@@ -290,7 +286,6 @@ func c27Class(sig string) string {
 var (
 	c27SurveyMu sync.Mutex
 	c27Survey   = map[string]int{}
-	c27LastSig  string
 	c27Examples = map[string]string{}
 )
 
@@ -326,6 +321,37 @@ func TestC27_Differential(t *testing.T) {
 		for k, v := range c27Survey {
 			fmt.Printf("SURVEY %5d %s\n", v, k)
 			if d := os.Getenv("C27_SURVEY"); d != "1" {
+				_ = os.WriteFile(filepath.Join(d, fmt.Sprintf("%x.txt", ev.HashStr(k))), []byte(k+"\n\n"+c27Examples[k]), 0o644)
+			}
+		}
+	}
+}
+
+func TestC27_Corpus(t *testing.T) {
+	ev.RunEnum(t, ev.Spec[c27Case]{ID: "C27", Name: "Corpus",
+		Rule:  "the repository's protoc-verified source files (real-world options, groups, extensions, editions features, well-known types), one root at a time within its workspace (the workspace that ships its own cut-down descriptor.proto is left out: the experimental compiler requires a complete one by design); same oracle and recorded classes as Differential",
+		Check: c27Check}, true, func(yield func(c27Case) bool) {
+		for _, ws := range corpus() {
+			if _, own := ws.Files["google/protobuf/descriptor.proto"]; own {
+				// the options workspace ships a cut-down descriptor.proto (options messages only); the experimental
+				// compiler requires a complete one and says so ("missing required symbol ..."): outside this check
+				continue
+			}
+			for _, root := range ws.Roots {
+				if !yield(c27Case{Files: ws.Files, Names: []string{root}}) {
+					return
+				}
+			}
+		}
+	})
+	c27PrintSurvey()
+}
+
+func c27PrintSurvey() {
+	if d := os.Getenv("C27_SURVEY"); d != "" {
+		for k, v := range c27Survey {
+			fmt.Printf("SURVEY %5d %s\n", v, k)
+			if d != "1" {
 				_ = os.WriteFile(filepath.Join(d, fmt.Sprintf("%x.txt", ev.HashStr(k))), []byte(k+"\n\n"+c27Examples[k]), 0o644)
 			}
 		}
